@@ -40,7 +40,7 @@ def gen_case(rng, tier):
     else:
         gene = {"kind": "shipped", "name": rng.choice(cfg["shipped"]), "genome": "hg19"}
     return {"gene": gene, "seed": rng.randint(0, 10**9), "mode": rng.choice(["planted", "planted", "noisy", "noisy", "wild", "edited", "edited", "homozygous",
-                                "mismatch", "mismatch"]),
+                                "mismatch", "mismatch", "crowded"]),
             "depth": rng.choice([10, 20]), "max_copies": rng.choice([1, 2, 2, 3]), "phase": rng.random() < 0.3}
 
 
@@ -382,6 +382,17 @@ def run_case(case, seg, viol, stats, sample):
     elif mode == "noisy":
         table = SL.planted_table(gene, planted, case["depth"], rng, noise=rng.choice([0.1, 0.25, 0.4]),
                                  extra_noise=rng.choice([0, 1, 2]))
+    elif mode == "crowded":
+        # a second alternative allele is observed at a site where a called allele already carries one
+        table = SL.planted_table(gene, planted, case["depth"])
+        have = {}
+        for ma, mi in planted:
+            for m in SL.allele_muts(gene, ma, mi):
+                have[m.pos] = m.op
+        for (pos, op) in sorted(gene.mutations):
+            if pos in have and have[pos] != op and ">" in op and ">" in have[pos]:
+                table.setdefault(pos, {})[op] = rng.randint(3, case["depth"])
+                break
     elif mode == "mismatch":
         # the evidence comes from other haplotypes than the major solution claims ("for any evidence and
         # any major solution"): core variants of a called allele may have little or no support
